@@ -371,6 +371,19 @@ def rule_R5(ck):
             ck.violation(where, "names defined after '.extern all' are not exported", construct="extern all later names")
         if "duplicate-symbol" not in [e[2] for e in ps[0].reported()]:
             ck.violation(where, "a name exported by two files is not reported as a duplicate", construct="extern duplicate")
+    # '.extern name1, name2' exports exactly the names given (before or after their definition), nothing else
+    def thunk_named():
+        sh = Shapes(I)
+        comp = I.instantiate(I.module_get("compiler", "Compiler"), [], {})
+        st = {"local_symbol_prefix": ".local1.", "internal_symbol_prefix": ".internal1.", "compiler": comp, "internal_symbols_list": ["foo", "bar", "baz"], "extern_all": None, "insn": sh.symbol(".extern")}
+        I.call(metacommand_fn(I, ".extern"), [st, sh.symbol("foo"), sh.symbol("Later")], {})
+        t = _table(comp.fields["extern_symbols_mapping"])
+        return {k: (v[1][1] if isinstance(v, tuple) and isinstance(v[1], tuple) else v) for k, v in t.items()}, st["extern_all"]
+    ps = I.explore(thunk_named)
+    ck.instance(("extern-named",), {"'.extern foo, Later' exports": repr(ps[0].value)[:160]}, fn="metacommands::extern")
+    if len(ps) != 1 or ps[0].kind != "return" or ps[0].value != ({"foo": ".internal1.foo", "later": ".internal1.Later"}, None):
+        ck.violation("metacommands::extern", f"'.extern foo, Later' in a file that defines foo, bar, baz leaves the export map / the export-all flag as {ps[0].value!r}; expected foo and Later mapped to this file's "
+                                             "private names and the flag untouched", construct="extern by name")
     # the other order: this file defined 'x' BEFORE its '.extern all', another file has exported an 'x' already
     def thunk2b():
         sh = Shapes(I)
